@@ -385,6 +385,8 @@ class ScalarEval(AbsInt):
             elif isinstance(lam, (ast.Attribute, ast.Name)):
                 r = self.idx.resolve_expr(ctx.fi.module, lam, ctx.fi) if ctx is not None and ctx.fi is not None else None
                 kind = {"operator.mul": "fprod", "operator.add": "fsum"}.get(r.val if r is not None and r.kind == "external" else None)
+            if kind and len(args) >= 3 and args[2] != ("num", 1 if kind == "fprod" else 0):
+                kind = None  # an initial value that is not the neutral element of the folded operation
             if kind:
                 v = args[1]
                 if kind and v[0] == "famlist":
